@@ -142,11 +142,13 @@ def check(ctx):
     lp = rg.loops[0] if rg.loops else None
     ok = False
     detail = ""
-    if lp is not None:
-        kel = [t for t, _, _ in lp["calls"] if is_call(t, "liesel.goose.engine.KernelErrorLog")]
-        if len(kel) == 1:
+    # (the per-kernel loop may be a loop or the comprehension it is the normal form of)
+    kel = sorted({t for t, _, _ in rg.calls if is_call(t, "liesel.goose.engine.KernelErrorLog")},
+                 key=repr)
+    if kel:
+        if len(kel) == 1 and kel[0][2] and kel[0][2][0][0] == "iter":
             ident, cls_, transition, codes_t = (kel[0][2] + (None,) * 4)[:4]
-            it = lp["iter"]
+            it = ident[1]
             name_t = ("iter", it)
             ec = ("a", ("s", it, name_t), "error_code")
             mask = ("call", ("g", "numpy.any"), (cmp_("!=", ec, c(0)),), (("axis", c(0)),))
